@@ -35,6 +35,9 @@ def main():
         if a.prop == "C20":
             import meicheck
             return meicheck.run(a.prop, a.tier)
+        if a.prop in ("C09", "C10", "C12", "C17"):
+            import servercheck
+            return servercheck.run(a.prop, a.tier)
         print("unknown property %s" % a.prop)
         return 2
     except MachineryError as e:
